@@ -57,61 +57,45 @@ theorem C04_schedule_collective_outside_core (ops : Ops α B) (law : Law ops) (e
     ∀ g ∈ w'.gcs, -g.curMax ≤ g.currentLoad ∧ g.currentLoad ≤ g.curMax :=
   step_collective_outside_within ops law env heps hc hout w w' st st' cmds h0 h
 
-/-- **schedule (collective) inside the core standing time — partial.**
-The limit holds for the step inside the core standing time PROVIDED that
-(1) the on-schedule branch is taken: the power the evaluation allotted to this timestep
-    (`power_for_vehicles_per_TS[0]`, after `evaluate_core_standing_time_ahead` if this is the first
-    step of the standing time) is at least `EPS`;
-(2) the scheduled target plus the battery power reserved for vehicles fits under the limit:
-    `gc.target + max(bat_power_for_vehicles, 0) ≤ cur_max_power`;
-(3) no vehicle is V2G-capable (the V2G pass is skipped);
-and the world has exactly one connector (asserted by the class for this sub-strategy).
-What is excluded is exactly where the unchanged code does exceed the limit (known finding
-`C04:strategy_breaks_limit:schedule:draw:vehicles`, see the witnesses below and notes/S_SCHEDULE.md):
-the excess branch charges the vehicles that are expected to fall short with a power that is never
-compared with the connector headroom; with a target above the currently valid limit the vehicles
-are given the target; the V2G pass bounds its power by `|target − load|`, not by the limit. -/
+/-- **schedule (collective) inside the core standing time — partial (repaired code: fixes/SCH2.diff,
+fixes/SCH3.diff).**  For any battery obeying `Sched.Law`, a world with one connector (asserted by the
+class for this sub-strategy) in which no vehicle is V2G-capable: `Schedule.step` inside the core
+standing time — with or without the evaluation at its first step, excess branch or on-schedule branch
+with its retry loop, whatever target, schedule and battery reserve — keeps the connector within
+`± cur_max_power`.  The hypotheses of the earlier version that the repairs make unnecessary are gone:
+"(1) the on-schedule branch is taken" (SCH2: the excess branch now searches below the connector
+headroom) and "(2) target + battery reserve ≤ limit" (SCH3: the power handed out on schedule is
+`min(target − load + battery support, cur_max_power − load)`).
+Still excluded, exactly: V2G-capable vehicles — in a discharge window the V2G pass lets a vehicle feed
+in up to `|target − load|`, which is not compared with `−cur_max_power` (feed-in direction only, see
+`C04_schedule_collective_core_draw_partial` for the draw direction). -/
 theorem C04_schedule_collective_core_partial (ops : Ops α B) (law : Law ops) (env : Env α)
     (heps : 0 ≤ env.eps) (hc : env.collective = true)
     (hin : dtWithinCoreStandingTime env.now env.cst = .ok true)
-    (w w' : SWorld α B) (st st1 st' : CState α) (cmds : List (String × α)) (g0 : GcS α)
-    (p : α) (rest : List α)
-    (hst1 : (st.inCst = true ∧ st1 = st) ∨
-      (st.inCst = false ∧ evaluate ops env (resetStations w) st = .ok st1))
-    (hp : st1.powerPerTS = p :: rest) (hpe : ¬ p < env.eps)
+    (w w' : SWorld α B) (st st' : CState α) (cmds : List (String × α)) (g0 : GcS α)
     (hg : w.gcs = [g0]) (hn : ∀ v ∈ w.vehicles, v.v2g = false)
-    (hT : ∀ x target, getGx env g0.id = .ok x → x.target = some target →
-      target + max st1.batPower 0 ≤ g0.curMax)
     (h0 : ∀ g ∈ w.gcs, -g.curMax ≤ g.currentLoad ∧ g.currentLoad ≤ g.curMax)
     (h : step ops env w st = .ok (w', st', cmds)) :
     ∀ g ∈ w'.gcs, -g.curMax ≤ g.currentLoad ∧ g.currentLoad ≤ g.curMax :=
-  step_collective_core_within ops law env heps hc hin w w' st st1 st' cmds g0 p rest hst1 hp hpe hg hn
-    hT h0 h
+  (step_collective_core ops law env heps hc hin true w w' st st' cmds g0 hg (fun _ => hn) h0 h).2 rfl
 
-/-- **schedule (collective) inside the core standing time, draw direction, V2G allowed — partial.**
-Same as `C04_schedule_collective_core_partial` without hypothesis (3): with V2G-capable vehicles (the
-V2G pass runs after the scheduled charging: charge windows bounded by `max(0, target − load)`,
-discharge windows only lower the load) the connector's load still does not exceed `cur_max_power`
-PROVIDED (1) the on-schedule branch is taken and (2) `target + max(bat_power_for_vehicles, 0) ≤
-cur_max_power`.  So in the draw direction the unchanged code exceeds the limit inside the core
-standing time only through the excess branch or a target above the limit (mechanisms A and B of
-notes/S_SCHEDULE.md).  Not claimed: the feed-in bound `−cur_max_power ≤ load` with V2G vehicles — in a
-discharge window the pass lets a vehicle feed in `|target − load|`. -/
+/-- **schedule (collective) inside the core standing time, draw direction, V2G allowed — partial
+(repaired code).**  One connector, nothing else assumed: with any vehicles (V2G-capable or not), any
+branch, any target and battery reserve, the connector's load does not exceed `cur_max_power` after the
+step (the V2G pass charges at most `min(target, cur_max_power) − load` and its discharge only lowers
+the load).  Together with `C04_schedule_individual_limit` and `C04_schedule_collective_outside_core`:
+on the repaired code `schedule` never exceeds the connector limit in the draw direction.
+Still excluded, exactly: the feed-in bound `−cur_max_power ≤ load` inside the core standing time when a
+V2G-capable vehicle is present. -/
 theorem C04_schedule_collective_core_draw_partial (ops : Ops α B) (law : Law ops) (env : Env α)
     (heps : 0 ≤ env.eps) (hc : env.collective = true)
     (hin : dtWithinCoreStandingTime env.now env.cst = .ok true)
-    (w w' : SWorld α B) (st st1 st' : CState α) (cmds : List (String × α)) (g0 : GcS α)
-    (p : α) (rest : List α)
-    (hst1 : (st.inCst = true ∧ st1 = st) ∨
-      (st.inCst = false ∧ evaluate ops env (resetStations w) st = .ok st1))
-    (hp : st1.powerPerTS = p :: rest) (hpe : ¬ p < env.eps)
+    (w w' : SWorld α B) (st st' : CState α) (cmds : List (String × α)) (g0 : GcS α)
     (hg : w.gcs = [g0])
-    (hT : ∀ x target, getGx env g0.id = .ok x → x.target = some target →
-      target + max st1.batPower 0 ≤ g0.curMax)
     (h0 : ∀ g ∈ w.gcs, -g.curMax ≤ g.currentLoad ∧ g.currentLoad ≤ g.curMax)
     (h : step ops env w st = .ok (w', st', cmds)) :
     ∀ g ∈ w'.gcs, g.currentLoad ≤ g.curMax :=
-  step_collective_core_upper ops law env heps hc hin w w' st st1 st' cmds g0 p rest hst1 hp hpe hg hT h0 h
+  (step_collective_core ops law env heps hc hin false w w' st st' cmds g0 hg (fun hb => by cases hb) h0 h).1
 
 /-- Non-vacuity with a V2G vehicle: target 6 kW, a V2G-capable vehicle above its desired SoC in a
 charge window; the V2G pass runs (the vehicle is charged towards the target) and the connector ends
@@ -122,22 +106,22 @@ example :
                 r.1.vehicles.any (·.v2g)
      | .error _ => false) = true := by decide +kernel
 
-/-- Non-vacuity of the partial theorem: target 6 kW ≤ limit 10 kW, 8 kW … here 2 kW allotted
-(6 − 4 kW fixed load); the step succeeds and the connector ends at its 6 kW target. -/
+/-- Non-vacuity, on-schedule branch: target 6 kW ≤ limit 10 kW, 2 kW allotted (6 − 4 kW fixed load);
+the step succeeds and the connector ends at its 6 kW target. -/
 example :
     (match step toyOps (exEnvC 6) exWorldC ⟨true, false, [2, 2], [true, true], 4, [("v1", 12)], [("v1", 0)], 0⟩ with
      | .ok r => r.1.gcs.all (fun g => decide (g.currentLoad ≤ 6 ∧ 6 - 1/1000 ≤ g.currentLoad))
      | .error _ => false) = true := by decide +kernel
 
-/-- **Witness (excess branch): hypothesis (1) cannot be dropped.**  Fixed load 4 kW on a 10 kW
-connector, target 4 kW, nothing allotted to the first hour of the standing time, the vehicle is
-expected to fall short by 0.3 SoC: `charge_vehicles_during_core_standing_time` charges it with the
-balanced power for the time outside the schedule (≈ 11 kW, its station maximum) and the connector
-ends at about 15 kW > 10 kW although the load before the step (4 kW) respected the limit. -/
+/-- **Former witness, excess branch (mechanism A), now within the limit.**  Fixed load 4 kW on a 10 kW
+connector, target 4 kW, nothing allotted to the first hour, the vehicle is expected to fall short by
+0.3 SoC: before SCH2 the step ended at about 15 kW; the repaired excess branch charges the vehicle with
+the connector headroom of 6 kW and the connector ends at its 10 kW limit (above its 4 kW base load, so
+the branch did charge). -/
 example :
     (∀ g ∈ exWorldC.gcs, -g.curMax ≤ g.currentLoad ∧ g.currentLoad ≤ g.curMax) ∧
     (match step toyOps (exEnvC 4) exWorldC exStateExcess with
-     | .ok r => r.1.gcs.all (fun g => decide (g.curMax + 4 < g.currentLoad))
+     | .ok r => r.1.gcs.all (fun g => decide (g.currentLoad ≤ g.curMax ∧ g.curMax - 1/100 < g.currentLoad))
      | .error _ => false) = true := by
   refine ⟨?_, by decide +kernel⟩
   intro g hg
@@ -146,12 +130,12 @@ example :
   simp only [GcS.currentLoad, List.foldl]
   norm_num
 
-/-- **Witness (target above the limit): hypothesis (2) cannot be dropped.**  Same world with a
-scheduled target of 12 kW on the 10 kW connector: the vehicle is given the 8 kW up to the target
-and the connector ends at 12 kW > 10 kW. -/
+/-- **Former witness, target above the limit (mechanism B), now within the limit.**  Same world with a
+scheduled target of 12 kW on the 10 kW connector: before SCH3 the vehicle was given the 8 kW up to the
+target (12 kW on the connector); now it is given the 6 kW headroom and the connector ends at 10 kW. -/
 example :
     (match step toyOps (exEnvC 12) exWorldC exStateTarget with
-     | .ok r => r.1.gcs.all (fun g => decide (g.curMax + 1 < g.currentLoad))
+     | .ok r => r.1.gcs.all (fun g => decide (g.currentLoad ≤ g.curMax ∧ g.curMax - 1/100 < g.currentLoad))
      | .error _ => false) = true := by decide +kernel
 
 end SpiceEv
